@@ -60,6 +60,7 @@ def run(ctx):
     n1, n2 = roots.sign_and_ctx_rules(rep, F, fns)
     n3 = sign_tables(rep, F, fns)
     n4 = S.sticky(rep, F, fns)
+    S.radicand_exact(rep, F, fns)
     rep.floor('PROV-CTX final sinks', n1, 5)
     rep.floor('sign table paths', n3, 6)
     rep.floor('integer-root sites', n4, 1)
